@@ -93,6 +93,11 @@ CLAIMED = {
    note='jsonutils.loads and the token layout are oracles; a token that itself carries a system_scope field is outside the theorem hypothesis.',
    technique='Coq proof (reduction to the enforce model) + differential on the console entry point',
    design='6 C19'),
+ 'C20': dict(
+   text='The full statement is false of the code (known finding F10: load_rules rebuilds the shared rule store in place, no lock, no copy-then-swap; not a small repair). Proof (Coq): a write-level trace model of load_rules whose last snapshot is proved to be the atomic load; decisions taken before the first and after the last write are based on the complete new policy; the statement is refuted on the model by the main-edit-with-directory-override scenario (and its window computed); the list of shared-state write sites of the reload path is regenerated from policy.py each run and proved equal to the expected list, so a new write site breaks an obligation. Deterministic scheduler (sys.settrace): the reloader is preempted at every (quick: every third) source-line boundary in four scenarios, the other thread decides (with its own implicit load), decisions compared with the settled old/new policies; mixed decisions are known findings keyed by (scenario, last shared write site), anything outside that list is a violation. Partial: the model is at the granularity of attribute writes, CPython preempts between bytecodes.',
+   note='Two-switch schedules are not enumerated; the scheduler pauses only the reloading thread.',
+   technique='Coq proof about a write-level trace model + generated write-site list + deterministic line-level scheduler with known-findings',
+   design='6 C20'),
 }
 REASON_PENDING = 'check not built yet in this session (model/theorems in progress); not claimed'
 def main():
